@@ -117,6 +117,9 @@ impl Obs {
 
 #[derive(Default, Clone, Serialize, Deserialize)]
 pub struct Stats {
+    /// Oracle invocations (generated cases).
+    #[serde(default)]
+    pub cases: u64,
     pub evaluations: u64,
     pub nontrivial: u64,
     pub skipped: u64,
@@ -132,6 +135,7 @@ pub struct Stats {
 
 impl Stats {
     pub fn merge(&mut self, o: Stats) {
+        self.cases += o.cases;
         self.evaluations += o.evaluations;
         self.nontrivial += o.nontrivial;
         self.skipped += o.skipped;
@@ -347,6 +351,7 @@ fn eval_case<C: Debug + Hash + Serialize>(
         r => r,
     };
     if counting {
+        stats.cases += 1;
         stats.evaluations += 1 + obs.extra_evals;
         if let Some(why) = obs.skipped {
             stats.skipped += 1;
@@ -612,12 +617,12 @@ pub fn run_property_in_process(prop: &Property, cfg: &RunCfg, only_both: bool) -
         st.distinct_count = st.distinct.len() as u64;
         // Generator health rules.
         for (s, label, min_permille) in &prop.health {
-            if *s == sub.name && st.evaluations > 0 {
+            if *s == sub.name && st.cases > 0 {
                 let got = st.labels.get(*label).copied().unwrap_or(0);
-                if got * 1000 < st.evaluations * *min_permille {
+                if got * 1000 < st.cases * *min_permille {
                     report.degenerate.push(format!(
-                        "{}: label '{}' {} / {} evaluations, below {}‰",
-                        sub.name, label, got, st.evaluations, min_permille
+                        "{}: label '{}' {} / {} cases, below {}‰",
+                        sub.name, label, got, st.cases, min_permille
                     ));
                 }
             }
